@@ -547,9 +547,10 @@ func valueNonNilAt(v ssa.Value, at *ssa.BasicBlock, depth int) bool {
 }
 
 func checkC06(c *Ctx, r *Report) {
-	r.Rules = []string{"E1 no dropped error", "E1' no swallowed error", "E2 checked close of closers over a fallible sink", "D9 invalid settings end in an error", "E3 CLI failure edge removes the target and exits non-zero", "E2m closers over in-memory sinks completed before use", "E5 file references reach their reader as configured", "E1-dep dependency container writers (thorough)"}
+	r.Rules = []string{"E1 no dropped error", "E1' no swallowed error", "E2 checked close of closers over a fallible sink", "D9 invalid settings end in an error", "E3 CLI failure edge removes the target and exits non-zero", "E2m closers over in-memory sinks completed before use", "E5 file references reach their reader as configured", "E1-dep dependency container writers (thorough)", "D9 required architecture (deb, rpm, apk) evaluated with literal tables modelled"}
 	r.Explanation = "Error-discipline analysis over go/ssa on the packaging call graph of all five packagers, the CLI, the signing helpers and the parser: (E1) every call whose callee returns an error has that result used, unless it falls under an enumerated idiom (reader-side Close, write into an in-memory buffer or hash decided by an interprocedural sink-root analysis, diagnostics, deferred cleanup Close discharged by E2, a named exception); (E1') from the failure edge of an `err != nil` test no path reaches a return with a nil error; (E2) every closer created over a fallible (caller-supplied) sink is closed/flushed, non-deferred and with its error used, before every return that may report success — or by a deferred closure that stores the Close error into the named result; (D9) the invalid cell of every finite setting evaluates to an error-only return set; (E3) the CLI's packaging-failure edge passes through os.Remove(target) and returns the error, and the root command exits with a non-zero constant. All paths and call sites of the code are covered, which is what 'every write index k' quantifies over; no fault is injected or executed."
 	r.Explanation += " (E2m) closers layered over an in-memory buffer are completed (non-deferred Close/Flush, also as the exit of a loop over a literal list of closers, also when the closer comes from a module factory) before every success-capable return and every read of the buffer. E1' also covers the error parameter of a tree-walk callback. (E5) a configuration field that names a file the packagers read may be assigned by the parser's environment expansion only if it is documented as expandable."
+	r.Explanation += " (D9-arch) nfpm.PrepareForPackager is evaluated for deb, rpm and apk with neither the general nor the format's own architecture set and every other setting unknown: every live return carries an error (lookups in map literals built in the function are modelled)."
 	r.Assumptions = []string{
 		"third-party writers (archive/tar, compress/gzip, pgzip, zstd, xz, rpmpack, blakesmith/ar in quick tier) surface sink errors through the Write/Close error they return",
 		"writes into bytes.Buffer, strings.Builder and hash.Hash never fail",
@@ -1541,6 +1542,38 @@ func checkD9(c *Ctx, r *Report) {
 			ok, why := errorOnlyUnder(c, fn, s.bad)
 			r.Check(ok, "D9", fmt.Sprintf("%s: %s in %s", s.format, s.what, c.funcKey(fn)), c.pos(fn.Pos()), why)
 		}
+	}
+	// a required architecture that is missing: with neither the general nor
+	// the format's own architecture set, preparing the package for deb, rpm
+	// or apk reports an error - whatever the other formats' settings are
+	if prep := c.Func("", "PrepareForPackager"); prep != nil && len(prep.Params) == 2 {
+		for _, fm := range []struct{ format, own string }{
+			{"deb", "Overridables.Deb.Arch"}, {"rpm", "Overridables.RPM.Arch"}, {"apk", "Overridables.APK.Arch"},
+		} {
+			n++
+			ev := newEvaluator(c)
+			obj := newAObj("info")
+			obj.Fields["Name"] = cStr("n")
+			obj.Fields["Version"] = cStr("1.0.0")
+			obj.Fields["Arch"] = cStr("")
+			obj.Fields[fm.own] = cStr("")
+			ev.Defaults[c.infoPtrKey()] = obj
+			fr := ev.Explore(prep, []AV{nil, cStr(fm.format)})
+			ok, why := false, "function could not be evaluated"
+			if fr != nil {
+				k := 0
+				ok, why = frameErrorOnly(c, fr, &k, 0)
+				if ok && k == 0 {
+					ok, why = false, "no live return"
+				}
+				if ok {
+					why = fmt.Sprintf("all %d live return(s) carry a non-nil error", k)
+				}
+			}
+			r.Check(ok, "D9", fmt.Sprintf("%s: neither arch nor %s set in %s", fm.format, strings.TrimPrefix(fm.own, "Overridables."), c.funcKey(prep)), c.pos(prep.Pos()), why)
+		}
+	} else {
+		r.Unresolved("nfpm.PrepareForPackager", "function with (info, packager) parameters not found")
 	}
 	// rpm epoch: the parse error is propagated
 	epochPA := newProv(c)
